@@ -61,6 +61,47 @@ def _bip(l, r, bits, fi, skeleton=None):
     return _roundtrip(B, 'bipartite', fi)
 
 
+def _write_mutate_write(typ_i, bits, f1, f2, how):
+    """the file describes the graph as it is when it is written: write, change the graph, write again, read back"""
+    typ = ['simple', 'digraph', 'bipartite'][typ_i]
+    if typ == 'simple':
+        G = Graph(4)
+        P = [(1, 2), (2, 3), (3, 4), (1, 4), (1, 3)]
+    elif typ == 'digraph':
+        G = DirectedGraph(4)
+        P = [(1, 2), (2, 3), (3, 4), (4, 1), (3, 1)]
+    else:
+        G = BipartiteGraph(3, 3)
+        P = [(1, 1), (2, 2), (3, 3), (1, 3), (2, 1)]
+    for i, b in enumerate(bits):
+        if b:
+            G.add_edge(*P[i])
+    writeGraph(G, io.StringIO(), typ, FORMATS[typ][f1])
+    G.to_networkx()
+    if how == 0:
+        G.add_edge(*P[4])
+    elif how == 1 and typ == 'simple':
+        G.update_vertex_number(6)
+    elif how == 2 and typ == 'simple':
+        for e in list(G.edges())[:1]:
+            G.remove_edge(*e)
+    elif how == 3 and typ == 'simple':
+        G.update_vertex_number(5)
+        G.add_edge(2, 5)
+        G.remove_edge(2, 5)
+    else:
+        G.add_edge(*P[3])
+    return _roundtrip(G, typ, f2)
+
+
+def h_e_write_mutate_write(typ_i: int, b1: bool, b2: bool, b3: bool, f1: int, f2: int, how: int) -> bool:
+    """
+    pre: 0 <= typ_i <= 2 and 0 <= f1 <= 3 and 0 <= f2 <= 3 and 0 <= how <= 3
+    post: _
+    """
+    return untraced(_write_mutate_write, pick(typ_i, 0, 2), [pickb(b1), pickb(b2), pickb(b3)], pick(f1, 0, 3), pick(f2, 0, 3), pick(how, 0, 3))
+
+
 # skeletons on 10-12 vertices (label sorting hazard "10" < "2")
 SK_SIMPLE = [(1, 2), (2, 10), (10, 11), (3, 12), (9, 10), (1, 11), (2, 3), (11, 12)]
 SK_DAG = [(1, 2), (2, 10), (10, 11), (3, 12), (9, 10), (1, 11), (2, 3), (11, 12)]
